@@ -255,19 +255,31 @@ impl LruManager {
         // An entry is in use when it is on the linked list. The key bytes
         // cannot tell: nine zero bytes are a valid key. Walking the list also
         // rejects files whose links point outside the table or form a cycle.
+        // The list is doubly linked and every later operation follows `prev` and
+        // `mru_head` as well: each entry must point back at the one it was reached
+        // from, and the head must be the entry the walk ends at.
+        let broken = || {
+            crate::StorageError::Cache(format!(
+                "invalid LRU file (broken entry list): {}",
+                path.display()
+            ))
+        };
         let mut in_use = vec![false; entries.len()];
+        let mut previous = LRU_SENTINEL;
         let mut idx = header.lru_tail;
         while idx != LRU_SENTINEL {
             match in_use.get_mut(idx as usize) {
                 Some(seen) if !*seen => *seen = true,
-                _ => {
-                    return Err(crate::StorageError::Cache(format!(
-                        "invalid LRU file (broken entry list): {}",
-                        path.display()
-                    )));
-                }
+                _ => return Err(broken()),
             }
+            if entries[idx as usize].prev != previous {
+                return Err(broken());
+            }
+            previous = idx;
             idx = entries[idx as usize].next;
+        }
+        if header.mru_head != previous {
+            return Err(broken());
         }
 
         // Rebuild the key map and free list
